@@ -43,6 +43,9 @@ class LimitRegister(NoteTransformer):
             return note.copy()
 
     def action(self, note, **kwargs):
+        if note.type not in ('s', 'h'):
+            # Only scale and chromatic notes have a register to limit
+            return note.copy()
         return self.limit(note)
 
 
